@@ -151,13 +151,19 @@ theorem levels_ordered (h : dddmpHeader f = .ok (i2p, levels, roots))
   subst hL'
   exact ⟨enumDict_mem hnd hk, enumDict_vals hnd⟩
 
+theorem levels_ordered_eq (h : dddmpHeader f = .ok (i2p, levels, roots))
+    {ov : List Tok} (ho : f.orderedvarnames = some ov) : levels = enumDict ov := by
+  obtain ⟨_, permids, _, _, _, _, _, hL, _⟩ := dddmpHeader_inv h
+  simp [dddmpLevels, ho] at hL
+  exact hL.symm
+
 /-- without `.orderedvarnames`: the variable at level `permids[j]` is `suppvarnames[j]` -/
 theorem levels_supp (h : dddmpHeader f = .ok (i2p, levels, roots))
     (ho : f.orderedvarnames = none) {sv : List Tok} (hs : f.suppvarnames = some sv)
     {permids : List Int} (hp : f.permids = some permids)
     (hsnd : sv.Nodup) (hpnd : permids.Nodup) (hlen : permids.length = sv.length)
     {j : Nat} {k : Int} {var : Tok} (hjk : permids[j]? = some k) (hjv : sv[j]? = some var) :
-    (var, k) ∈ levels ∧ (levels.map (·.2)).Nodup := by
+    (var, k) ∈ levels ∧ (levels.map (·.2)).Nodup ∧ levels.map (·.2) = sortInts permids := by
   obtain ⟨_, permids', _, _, hp', _, _, hL, _⟩ := dddmpHeader_inv h
   rw [hp] at hp'
   cases hp'
@@ -211,11 +217,11 @@ theorem levels_supp (h : dddmpHeader f = .ok (i2p, levels, roots))
     rw [hjv] at hv'
     cases hv'
     simp [vo, hg]
-  · rw [List.map_map]
-    have : (sortInts permids).map ((fun x => x.2) ∘ fun k => (vo k, k)) = sortInts permids := by
+  · have : ((sortInts permids).map fun k => (vo k, k)).map (·.2) = sortInts permids := by
+      rw [List.map_map]
       simp [Function.comp_def]
     rw [this]
-    exact hsp.nodup_iff.mpr hpnd
+    exact ⟨hsp.nodup_iff.mpr hpnd, rfl⟩
 
 /-- `.varinfo 0` with `.orderedvarnames`: the line labelled `ids[j]` is a node of the
 variable `orderedvarnames[permids[j]]` -/
@@ -250,7 +256,7 @@ theorem dddmpVarOf_varinfo0_supp (h : dddmpHeader f = .ok (i2p, levels, roots))
     {j : Nat} {i k : Int} {var : Tok} (hji : ids[j]? = some i) (hjk : permids[j]? = some k)
     (hjv : sv[j]? = some var) :
     dddmpVarOf i2p levels (.num i) = some var := by
-  obtain ⟨hm, hvals⟩ := levels_supp h ho hs hp hsnd hpnd hlen' hjk hjv
+  obtain ⟨hm, hvals, -⟩ := levels_supp h ho hs hp hsnd hpnd hlen' hjk hjv
   exact dddmpVarOf_of_mem hvals (i2p_varinfo0 h hv hi hp hnd hlen hji hjk) hm
 
 /-- `.varinfo 1` without `.orderedvarnames`: the line labelled `permids[j]` is a node of the
@@ -262,7 +268,7 @@ theorem dddmpVarOf_varinfo1_supp (h : dddmpHeader f = .ok (i2p, levels, roots))
     (hsnd : sv.Nodup) (hlen' : permids.length = sv.length)
     {j : Nat} {k : Int} {var : Tok} (hjk : permids[j]? = some k) (hjv : sv[j]? = some var) :
     dddmpVarOf i2p levels (.num k) = some var := by
-  obtain ⟨hm, hvals⟩ := levels_supp h ho hs hp hsnd hpnd hlen' hjk hjv
+  obtain ⟨hm, hvals, -⟩ := levels_supp h ho hs hp hsnd hpnd hlen' hjk hjv
   exact dddmpVarOf_of_mem hvals (i2p_varinfo1 h hv hp hpnd (List.mem_of_getElem? hjk)) hm
 
 end Modes
